@@ -4,15 +4,15 @@
    dictionaries, character classes and regular-expression texts come from Gen.TokenTables / Gen.Elements, regenerated
    from the source on every run. *)
 From Coq Require Import ZArith List String Ascii Bool.
-From Model Require Import PyBase Tokenize Parser Reader.
+From Model Require Import PyBase Tokenize Parser Reader SmilesAst.
 From Gen Require Import TokenTables.
-From Proofs Require Import TokenizeProofs ParserProofs ReaderProofs.
+From Proofs Require Import TokenizeProofs ParserProofs ReaderProofs ReaderExt DenoteProofs.
 Import ListNotations.
 Open Scope Z_scope.
 
 (* the hand-written matchers are for exactly these pattern texts *)
 Theorem C03_regex_sources_pinned :
-  atom_re_src = "([1-9][0-9]{0,2})?([A-IK-PR-Zacnopsbt][a-ik-pr-vy]?)(@@|@)?(H[1-4]?)?([+-][1-4+-]?)?(:[0-9]{1,4})?"%string /\
+  atom_re_src = "([1-9][0-9]{0,2})?([A-IK-PR-Zacnopsbt][a-ik-pr-vy]?)(@@|@)?(H[1-4]?)?([+-][1-4+-]?)?(:[0-9]+)?"%string /\
   cx_fragments_src = "f:(?:[0-9]+(?:\.[0-9]+)+)(?:,(?:[0-9]+(?:\.[0-9]+)+))*"%string /\
   cx_radicals_src = "\^[1-7]:[0-9]+(?:,[0-9]+)*"%string.
 Proof. exact regex_sources_pinned. Qed.
@@ -202,13 +202,56 @@ Theorem C03_dicts_pinned :
 Proof. exact dicts_pinned. Qed.
 Print Assumptions C03_dicts_pinned.
 
-(* postprocess_parsed_reaction(remap=False): one number per atom of every role; reactant-side numbers pairwise distinct,
-   product-side numbers pairwise distinct.  PARTIAL: distinctness / disjointness of the reagent numbers after the collision
-   re-numbering and the remap=True squeeze are not theorems (tied by correspondence on ~9000 configurations). *)
-Theorem C03_mapping_numbers_reaction_partial : forall ignore rs ps gs mR mP mG,
+(* postprocess_parsed_reaction(remap=False), in full: one number per atom; within the reactants, within the products and within
+   the reagents all numbers are pairwise distinct; no reagent number occurs among reactants or products (reagent atoms whose map
+   collides are re-numbered above everything); on the reactant and on the product side the first atom carrying a map keeps it, so
+   mapped atoms of the two sides correspond.   keeps_maps maps out := forall i m, nth_error maps i = Some m -> m <> 0 ->
+   ~ In m (firstn i maps) -> nth_error out i = Some m *)
+Theorem C03_mapping_numbers_reaction : forall ignore rs ps gs mR mP mG,
   pp_reaction false ignore rs ps gs = Ok (mR, mP, mG) ->
-  NoDup (List.concat mR) /\ NoDup (List.concat mP) /\
   List.length (List.concat mR) = List.length (List.concat rs) /\ List.length (List.concat mP) = List.length (List.concat ps) /\
-  List.length (List.concat mG) = List.length (List.concat gs).
-Proof. exact mapping_numbers_reaction_partial. Qed.
-Print Assumptions C03_mapping_numbers_reaction_partial.
+  List.length (List.concat mG) = List.length (List.concat gs) /\
+  NoDup (List.concat mR) /\ NoDup (List.concat mP) /\ NoDup (List.concat mG) /\
+  (forall x, In x (List.concat mG) -> ~ In x (List.concat mR) /\ ~ In x (List.concat mP)) /\
+  keeps_maps (List.concat rs) (List.concat mR) /\ keeps_maps (List.concat ps) (List.concat mP).
+Proof. exact mapping_numbers_reaction. Qed.
+Print Assumptions C03_mapping_numbers_reaction.
+
+(* remap=True = the remap=False numbering followed, number by number, by one function sq that is strictly monotone on the numbers
+   in use (so all of the above - distinctness, disjointness, correspondence of mapped atoms between the sides - is preserved),
+   keeps them >= 1 and never increases one.  (Not proved: that sq leaves no gap, i.e. the result is exactly 1..N; tied.) *)
+Theorem C03_mapping_numbers_reaction_remap : forall ignore rs ps gs mR' mP' mG',
+  pp_reaction true ignore rs ps gs = Ok (mR', mP', mG') ->
+  exists mR mP mG sq,
+    pp_reaction false ignore rs ps gs = Ok (mR, mP, mG) /\
+    List.concat mR' = map sq (List.concat mR) /\ List.concat mP' = map sq (List.concat mP) /\ List.concat mG' = map sq (List.concat mG) /\
+    (forall x y, In x (List.concat mR ++ List.concat mP ++ List.concat mG) -> In y (List.concat mR ++ List.concat mP ++ List.concat mG) ->
+                 x < y -> sq x < sq y) /\
+    (forall x, In x (List.concat mR ++ List.concat mP ++ List.concat mG) -> 1 <= x -> 1 <= sq x <= x).
+Proof. exact mapping_numbers_reaction_remap. Qed.
+Print Assumptions C03_mapping_numbers_reaction_remap.
+
+Theorem C03_mapping_numbers_reaction_example :
+  pp_reaction false true [[1; 0]; [7]] [[7; 1]] [[1; 0; 3]] = Ok ([[1; 8]; [7]], [[7; 1]], [[10; 9; 3]]) /\
+  pp_reaction true true [[1; 0]; [7]] [[7; 1]] [[1; 0; 3]] = Ok ([[1; 4]; [3]], [[3; 1]], [[6; 5; 2]]).
+Proof. exact mapping_numbers_reaction_example. Qed.
+Print Assumptions C03_mapping_numbers_reaction_example.
+
+(* ---- read_spell_denote: the token machine (branch stack, last_num, previous) implements the grammar.  For every well-formed
+   tree of the SMILES abstract syntax (Model.SmilesAst: atoms with ring-bond lists, branches, chain, dots) the parser returns, on
+   the spelling of the tree, exactly the record the tree denotes (atoms, bonds, neighbour order, closure slots, direction-mark
+   tables, log) - and raises exactly when the denotation is undefined.  `denote` attaches every atom to its parent IN THE TREE and
+   applies ring digits at the atom they follow; it has no stack, no last atom and no pending bond (at_node resets them before
+   every local operation); its two local operations are the machine's own atom / ring steps on such a reset state. *)
+Theorem C03_read_spell_denote : forall (strong : bool) (t : tree), wf_tree t = true -> parse (spell t) strong = denote strong t.
+Proof. exact read_spell_denote. Qed.
+Print Assumptions C03_read_spell_denote.
+
+Theorem C03_read_spell_denote_example :
+  let C := simple_atom "C" in
+  let t := Node 0 C [(None, 1)] [(Some (1, PInt 2), Node 0 (simple_atom "O") [] []);
+                                 (None, Node 8 C [] [(None, Node 8 C [(Some (9, PBool true), 1)] [(Some (4, PNone), Node 0 C [] [])])])] in
+  wf_tree t = true /\ (exists p, denote true t = Ok p /\ List.length (p_atoms p) = 5%nat /\ List.length (p_bonds p) = 4%nat) /\
+  denote true (Node 0 C [(None, 1)] []) = Err IncorrectSmiles.
+Proof. exact read_spell_denote_example. Qed.
+Print Assumptions C03_read_spell_denote_example.
